@@ -146,6 +146,13 @@ Theorem kept_frames_are_listed : forall c ind fs f,
   exists ls g k w, render_trace c ind fs = Ok ls /\ frame_eqb f g = true /\ In (loc_line c ind w g k) ls.
 Proof. exact kept_frames_have_their_line. Qed.
 Print Assumptions kept_frames_are_listed.
+(* its hypotheses on the three-frame traceback a, b, v(ignored) at -v: the stack trace is printed and a is a kept frame
+   that is not the last kept one *)
+Example kept_frames_are_listed_instance :
+  t_verbose (RenderExamples.demo_cfg true) = true /\
+  (zlen (kept_frames (RenderExamples.demo_cfg true) IgnoredLast.fs) - 1 <> 0)%Z /\
+  In (IgnoredLast.fr 97 1 false) (removelast (kept_frames (RenderExamples.demo_cfg true) IgnoredLast.fs)).
+Proof. vm_compute. split; [reflexivity|]. split; [discriminate|left; reflexivity]. Qed.
 (* "But its last one": the listing leaves out the last KEPT frame (crashtest's compact stops before it: it is taken to be
    the frame of the snippet), while the snippet shows the last frame of the TRACEBACK, ignored or not (full_report_*
    below: render_snippet of last (x_frames x), no filter).  The two are the same frame unless the raising frame is under
